@@ -452,6 +452,21 @@ def execute_slow_resolver(desc):
         s.cleanup()
 
 
+def settle_out(c, r, quiet=0.3, limit=6.0):
+    """Waits until the holder has stopped creating files below <out_dir> (its log files appear a moment after its
+    executables have started): two snapshots `quiet` seconds apart are equal. What changes afterwards while the
+    holder's executables are blocked is somebody else's doing."""
+    t_end = time.time() + limit
+    prev = sc.snapshot(r.out_dir())
+    while time.time() < t_end:
+        c.wait(lambda: False, quiet)
+        cur = sc.snapshot(r.out_dir())
+        if cur == prev:
+            return
+        prev = cur
+    raise common.EngineError("the holder's output directory did not settle")
+
+
 def execute_aged(desc):
     """A `run` that has held the lock for a while (longer than bind_timeout_ms - the default of one second,
     or a short configured one) and is still working: every API tried then is refused like one tried at
@@ -481,6 +496,7 @@ def execute_aged(desc):
             if len(mine) < 2:
                 raise common.EngineError("the holding run did not start its executables (exit %s %s)" % (holder.code, holder.err[:200]))
             c.wait(lambda: False, age_s)
+            settle_out(c, r)
             for api in desc["apis"]:
                 before = sc.snapshot(r.out_dir())
                 nchildren = len(c.children)
@@ -527,7 +543,183 @@ def execute_aged(desc):
         s.cleanup()
 
 
+def execute_spelling(desc):
+    """The lock address left to its default (no `server` member in the configuration) and the repository named in
+    different ways by the holder and the contenders: from inside it, through `-f` with a path via a symbolic link
+    to it, with a `dir/..` component, from a directory reached through the link. It is one configuration file,
+    hence one lock address: every contender is refused while the run holds the lock."""
+    s = sc.Scratch("c14spell")
+    try:
+        if sc.port_listening(5917):
+            return {"evaluations": 0, "nontrivial": 0, "states": [], "transitions": 0, "violations": [],
+                    "sample": {"skipped": "the default lock port 5917 is in use by something else on this machine"}}
+        r = sc.Repo(s, "r", TARGETS, commands={"a": {"build": "x"}, "b": {"build": "x"}})
+        r.cfg.pop("server", None)   # (a `server` object must carry both members: it is left out altogether)
+        r.write_cfg()
+        r.commit("default lock address")
+        link = os.path.join(s.dir, "link-to-repo")
+        os.symlink(r.dir, link)
+        elsewhere = os.path.join(s.dir, "elsewhere")
+        os.makedirs(elsewhere)
+        viol = []
+        c = ctlmod.Controller(s)
+        try:
+            env = s.env(c.env())
+            holder = c.spawn("holder", [common.MONORAIL, "run", "-c", "build", "-t", "a", "b", "--deps"], r.dir, env)
+            c.wait(lambda: len(c.waiting()) >= 2 or holder.done(), 15)
+            mine = list(c.waiting())
+            if len(mine) < 2:
+                if b"Lock acquisition failed" in (holder.err or b""):
+                    return {"evaluations": 0, "nontrivial": 0, "states": [], "transitions": 0, "violations": [],
+                            "sample": {"skipped": "the default lock port was taken by something else"}}
+                raise common.EngineError("the holding run did not start its executables (exit %s %s)" % (holder.code, holder.err[:200]))
+            settle_out(c, r)
+            spellings = [("from inside the repository", [], r.dir),
+                         ("-f through a symbolic link to the repository", ["-f", os.path.join(link, "Monorail.json")], elsewhere),
+                         ("-f with a dir/.. component", ["-f", os.path.join(r.dir, "a", "..", "Monorail.json")], elsewhere),
+                         ("from the repository reached through a symbolic link", [], link)]   # (-f must be absolute: no relative spelling)
+            n = 0
+            for label, f_arg, cwd in spellings:
+                for api in desc["apis"]:
+                    before = sc.snapshot(r.out_dir())
+                    nchildren = len(c.children)
+                    p = c.spawn("late:" + api, [common.MONORAIL] + f_arg + APIS[api], cwd, env)
+                    t_end = time.time() + 10
+                    while not p.done() and time.time() < t_end:
+                        c.pump(0.01)
+                        for ch in list(c.waiting()):
+                            if ch not in mine:
+                                c.release(ch, 0)
+                    n += 1
+                    if not p.done():
+                        c.kill(p, group=True)
+                        c.wait(lambda: p.done(), 5)
+                        viol.append(("contender-hung", "%s invoked %s did not finish" % (api, label)))
+                        continue
+                    err = sc.Result(p.code, p.out, p.err).err_json() or {}
+                    if p.code == 0 or err.get("type") != "server" or "Lock acquisition failed" not in str(err.get("message")):
+                        viol.append(("two-holders", "a run (started inside the repository, default lock address) holds the lock; %s invoked %s: exit %s %s" % (api, label, p.code, (p.err or p.out)[:150])))
+                    if len(c.children) != nchildren:
+                        viol.append(("loser-started-executable", "%s invoked %s started an executable while a run holds the lock" % (api, label)))
+                    after = sc.snapshot(r.out_dir())
+                    if after != before:
+                        diff = sorted(set(after.items()) ^ set(before.items()))[:4]
+                        viol.append(("loser-modified-state", "%s invoked %s changed <out_dir> while a run holds the lock: %s" % (api, label, diff)))
+            for ch in mine:
+                c.release(ch, 0)
+            c.wait(lambda: holder.done(), 20)
+            if not holder.done():
+                c.kill(holder, group=True)
+                c.wait(lambda: holder.done(), 5)
+            return {"evaluations": 1, "nontrivial": 1, "states": [["default-address", str(n)]], "transitions": n,
+                    "violations": [{"sig": sig, "detail": d, "rank": 55, "case": {"c14s": desc}} for sig, d in viol[:6]],
+                    "sample": {"default_lock_address": True, "spellings": len(spellings), "apis": desc["apis"]}}
+        finally:
+            c.close()
+    except common.EngineError as e:
+        return {"engine_error": str(e)}
+    except Exception:
+        return {"engine_error": traceback.format_exc()[-1500:]}
+    finally:
+        s.cleanup()
+
+
+def execute_stalled(desc):
+    """A `run` that prints its diagnostics (-v) into a pipe nobody reads at the moment stalls in the middle of
+    what it is doing: at whichever diagnostic line no longer fits into the `free` bytes the pipe has left. While
+    it is stalled a second run of the same repository is started; then the pipe is drained. Wherever the first
+    one was stalled - before, inside or after lock acquisition - the executables of the two never exist at the
+    same time, and whoever did not get the lock ends with a lock error."""
+    import fcntl
+    import subprocess
+    import threading
+    free = desc["free"]
+    s = sc.Scratch("c14stall")
+    try:
+        r = sc.Repo(s, "r", TARGETS, commands={"a": {"build": "x"}, "b": {"test": "x"}}, init_git=False)
+        viol = []
+        c = ctlmod.Controller(s)
+        try:
+            env = s.env(c.env())
+            rfd, wfd = os.pipe()
+            fcntl.fcntl(wfd, 1031, 4096)    # F_SETPIPE_SZ: one page
+            cap = fcntl.fcntl(wfd, 1032)    # F_GETPIPE_SZ
+            fl = fcntl.fcntl(wfd, fcntl.F_GETFL)
+            fcntl.fcntl(wfd, fcntl.F_SETFL, fl | os.O_NONBLOCK)
+            os.write(wfd, b"#" * max(0, cap - free))
+            fcntl.fcntl(wfd, fcntl.F_SETFL, fl)
+            errf = open(os.path.join(s.dir, "A.err"), "wb")
+            A = subprocess.Popen([common.MONORAIL, desc.get("verbosity", "-v"), "run", "-c", "build", "-t", "a"], cwd=r.dir, env=env,
+                                 stdout=wfd, stderr=errf, stdin=subprocess.DEVNULL, start_new_session=True)
+            s.popens.append(A)
+            os.close(wfd)
+
+            def kinds():
+                return sorted(os.path.basename(ch.argv[0]).split(".")[0] for ch in c.waiting())
+            c.wait(lambda: len(c.waiting()) > 0 or A.poll() is not None, 1.0)
+            a_first = "build" in kinds()
+            B = c.spawn("B", [common.MONORAIL, "run", "-c", "test", "-t", "b"], r.dir, env)
+            c.wait(lambda: B.done() or "test" in kinds(), 8)
+            drained = []
+
+            def drain():
+                while True:
+                    try:
+                        d = os.read(rfd, 65536)
+                    except OSError:
+                        break
+                    if not d:
+                        break
+                    drained.append(d)
+            th = threading.Thread(target=drain, daemon=True)
+            th.start()
+            c.wait(lambda: (A.poll() is not None or "build" in kinds()) and (B.done() or "test" in kinds()), 10)
+            k = kinds()
+            a_out = b"".join(drained)
+            stalled_at = "nowhere (everything fitted)" if a_first else "a diagnostic line after %d free bytes" % free
+            if "build" in k and "test" in k:
+                viol.append(("two-holders", "the first run (-v, stalled at %s) and the second run both have an executable running: %s" % (stalled_at, k)))
+            elif "build" in k:
+                err = sc.Result(B.code, B.out, B.err).err_json() or {}
+                if not B.done() or B.code == 0 or "Lock acquisition failed" not in str(err.get("message")):
+                    viol.append(("loser-not-a-lock-error", "the first run holds the lock (stalled at %s) but the second ended with exit %s %s" % (stalled_at, B.code, B.err[:150])))
+            elif "test" in k:
+                c.wait(lambda: A.poll() is not None, 5)
+                errf.flush()
+                a_err = open(os.path.join(s.dir, "A.err"), "rb").read()
+                if A.poll() in (None, 0) or b"Lock acquisition failed" not in a_err:
+                    viol.append(("loser-not-a-lock-error", "the second run holds the lock (the first was stalled at %s) but the first ended with exit %s %s" % (stalled_at, A.poll(), a_err[:150])))
+            else:
+                viol.append(("free-lock-not-acquired", "neither run started its executable: first exit %s, second exit %s %s" % (A.poll(), B.code, B.err[:150])))
+            for ch in list(c.waiting()):
+                c.release(ch, 0)
+            t_end = time.time() + 10
+            while time.time() < t_end and (A.poll() is None or not B.done()):
+                c.pump(0.02)
+                for ch in list(c.waiting()):
+                    c.release(ch, 0)
+            try:
+                os.close(rfd)
+            except OSError:
+                pass
+            return {"evaluations": 1, "nontrivial": 0 if a_first else 1, "states": [["stalled", str(free), "first" if "build" in k else "second"]], "transitions": 2,
+                    "violations": [{"sig": sig, "detail": d, "rank": 45, "case": {"c14b": desc}} for sig, d in viol],
+                    "sample": {"free_bytes": free, "holder": "first" if "build" in k else "second" if "test" in k else None, "first_run_stdout_bytes": len(a_out)}}
+        finally:
+            c.close()
+    except common.EngineError as e:
+        return {"engine_error": str(e)}
+    except Exception:
+        return {"engine_error": traceback.format_exc()[-1500:]}
+    finally:
+        s.cleanup()
+
+
 def _exec_any(desc):
+    if "free" in desc:
+        return execute_stalled(desc)
+    if "spelling" in desc:
+        return execute_spelling(desc)
     if "age_s" in desc:
         return execute_aged(desc)
     if "dirs" in desc:
@@ -559,6 +751,12 @@ def scenarios(tier):
         out.append({"api": api, "delay_ms": 700, "timeout_ms": 200})
     for api in ("checkpoint_update", "checkpoint_delete"):
         out.append({"api": api, "dirs": 20000 if tier == "quick" else 60000})
+    for free in (range(0, 720, 48) if tier == "quick" else range(0, 1000, 16)):
+        out.append({"free": free})
+    if tier != "quick":
+        for free in range(0, 2400, 40):
+            out.append({"free": free, "verbosity": "-vv"})
+    out.append({"spelling": True, "apis": ["checkpoint_update", "run"] if tier == "quick" else names})
     out.append({"age_s": 1.6, "apis": names})
     out.append({"age_s": 0.9, "bind_ms": 300, "apis": names})
     if tier != "quick":
@@ -583,7 +781,7 @@ def run(prop, tier):
            "distinct_nontrivial": sum(r["nontrivial"] for r in results),
            "violations": [v for r in results for v in r["violations"]],
            "samples": [r["sample"] for r in results[:: max(1, len(results) // 5)]][:6], "exhaustive": True,
-           "rule": "contenders: every ordered pair (thorough: plus every multiset of 3) over {run, checkpoint update, checkpoint delete, out delete --all}, all started and held at lock.pre; every maximal sequence of {attempt i, finish holder, kill holder (SIGKILL)}, plus for pairs an attempt that is still in progress (2 s, bind timeout raised to 6 s) when the holder finishes or is killed; plus contenders that descend from a holder (a command executable of the holding run, or the orphaned executable of a SIGKILLed run while another run holds, starts each of the four APIs with the environment monorail gave it); plus back-to-back contenders during the exit tail of a run that reuses a slot holding tens of thousands of directories; plus contenders for which the name service of the lock host answers slower than bind_timeout_ms (LD_PRELOAD shim around getaddrinfo) while a run holds the lock; plus every API tried after a run has been holding the lock for longer than bind_timeout_ms (default and configured short) and is still working; plus lock ports at and beyond the end of the valid range (65535, 65536, 70000, 131072) shared by a holding run and a contender; each sequence executed from scratch on real processes against a repository with a checkpoint and a completed run; invariants: never two contenders past lock acquisition; an attempt while somebody holds exits non-zero with a server lock error, starts no executable and leaves <out_dir> byte-identical (also compared with its state before any contender was started, as long as no holder has worked); an attempt while nobody holds (initially, after exit, after SIGKILL) acquires at once; states = (contender statuses, holder) per contender tuple"}
+           "rule": "contenders: every ordered pair (thorough: plus every multiset of 3) over {run, checkpoint update, checkpoint delete, out delete --all}, all started and held at lock.pre; every maximal sequence of {attempt i, finish holder, kill holder (SIGKILL)}, plus for pairs an attempt that is still in progress (2 s, bind timeout raised to 6 s) when the holder finishes or is killed; plus contenders that descend from a holder (a command executable of the holding run, or the orphaned executable of a SIGKILLed run while another run holds, starts each of the four APIs with the environment monorail gave it); plus back-to-back contenders during the exit tail of a run that reuses a slot holding tens of thousands of directories; plus contenders for which the name service of the lock host answers slower than bind_timeout_ms (LD_PRELOAD shim around getaddrinfo) while a run holds the lock; plus every API tried after a run has been holding the lock for longer than bind_timeout_ms (default and configured short) and is still working; plus a first run with -v whose diagnostics go into a pipe with only n free bytes (n swept in steps over everything it prints before its executable starts), so that it stalls at each of its diagnostic lines in turn while a second run is started; plus a configuration without server.lock (default address) with the holder and the contenders naming the repository in four different ways (from inside, -f through a symbolic link, -f with a dir/.. component, from a linked directory); plus lock ports at and beyond the end of the valid range (65535, 65536, 70000, 131072) shared by a holding run and a contender; each sequence executed from scratch on real processes against a repository with a checkpoint and a completed run; invariants: never two contenders past lock acquisition; an attempt while somebody holds exits non-zero with a server lock error, starts no executable and leaves <out_dir> byte-identical (also compared with its state before any contender was started, as long as no holder has worked); an attempt while nobody holds (initially, after exit, after SIGKILL) acquires at once; states = (contender statuses, holder) per contender tuple"}
     by = {}
     for v in agg["violations"]:
         by[v["sig"]] = by.get(v["sig"], 0) + 1
@@ -596,7 +794,7 @@ def run(prop, tier):
 
 def replay(prop, path):
     body = json.load(open(path))
-    r = _exec_any(body["case"].get("c14a") or body["case"].get("c14t") or body["case"].get("c14r") or body["case"].get("c14p") or body["case"].get("c14n") or body["case"]["c14"])
+    r = _exec_any(body["case"].get("c14b") or body["case"].get("c14s") or body["case"].get("c14a") or body["case"].get("c14t") or body["case"].get("c14r") or body["case"].get("c14p") or body["case"].get("c14n") or body["case"]["c14"])
     if "engine_error" in r:
         print("ENGINE:", r["engine_error"])
         return 2
